@@ -229,9 +229,23 @@ def extract(repo):
         return int(m.group(1))
     nesting, cont, ll = const("exppp_nesting_indent"), const("exppp_continuation_indent"), const("exppp_linelength")
     bls = _strip_c_comments(_body(ex, r"void\s+breakLongStr\s*\([^)]*\)\s*\{"))
+    if re.search(r"void\s+breakLongStr_paren\s*\([^)]*\)\s*\{", ex):
+        bls += _strip_c_comments(_body(ex, r"void\s+breakLongStr_paren\s*\([^)]*\)\s*\{"))
     doubles = bool(re.search(r"'\\''", bls))
     r2e = _strip_c_comments(_body(ex, r"const\s+char\s*\*\s*real2exp\s*\([^)]*\)\s*\{"))
     drops_point = bool(re.search(r"\*\(\s*firstUnnecessaryDigit\s*-\s*1\s*\)\s*=\s*'\\0'", r2e))
+
+    # split string literals in operand position
+    mm = re.search(r"case\s+string_\s*:(.*?)break\s*;", _strip_c_comments(pe), re.S)
+    if not mm:
+        raise ValueError("EXPR__out: string_ case not found")
+    sc = re.sub(r"\s+", "", mm.group(1))
+    if "breakLongStr(e->symbol.name);" in sc:
+        split_paren = False
+    elif "breakLongStr_paren(e->symbol.name,paren&&(previous_op!=OP_PLUS));" in sc:
+        split_paren = True
+    else:
+        raise ValueError("EXPR__out: string_ case: call of breakLongStr not recognised")
 
     L = []
     L.append("-- GENERATED by tools/extract.d/expprec.py from src/express/expparse.y (+ generated/expparse.c), src/express/expr.c,")
@@ -264,6 +278,8 @@ def extract(repo):
     L.append(f"def stringQuoteDoubled : Bool := {'true' if doubles else 'false'}")
     L.append("/-- `real2exp` can remove the decimal point (turning a real literal into an integer literal) -/")
     L.append(f"def realDropsPoint : Bool := {'true' if drops_point else 'false'}")
+    L.append("/-- a simple string literal that has to be split is printed as ( 'a' + 'b' ) in operand position (not under +) -/")
+    L.append(f"def splitLiteralParen : Bool := {'true' if split_paren else 'false'}")
     L.append(f"def nestingIndent : Nat := {nesting}")
     L.append(f"def continuationIndent : Nat := {cont}")
     L.append(f"def defaultLineLength : Nat := {ll}")
